@@ -119,7 +119,29 @@ AsmCode(e) ==
     IN IF ~conforming THEN 8
        ELSE IF e.wst = "ok" /\ e.words = enc /\ e.pst = "ok" /\ e.parsed = <<e.inst>> THEN 0 ELSE 1
 
-Code(e) == IF e.ev = "parse" THEN ParseCode(e) ELSE IF e.ev = "asm" THEN AsmCode(e) ELSE 0
+\* The maximal word count.  An OpTypeStruct %rid with n members %member is Assembler!EncodeInst of
+\* BigInst(n): first word <<n + 2, 30>> (word count in the high half), the result id, n times the member id.  The event
+\* carries the assembled words and the operands parsed back RUN-LENGTH ENCODED (without loss), so that n = 65533 - the
+\* largest instruction the format can express - is validated by arithmetic; BigAgrees ties the closed form to
+\* EncodeInst / ParseInst on small n.
+BigInst(n, rid, member) == [op |-> 30, rt |-> <<>>, rid |-> <<rid>>, ops |-> [j \in 1..n |-> [k |-> "IdRef", w |-> <<member>>, s |-> <<>>]]]
+BigWordsRle(n, rid, member) == <<<< <<n + 2, 30>>, 1>>, <<rid, 1>>>> \o (IF n = 0 THEN <<>> ELSE <<<<member, n>>>>)
+RECURSIVE UnRle(_, _)
+UnRle(r, j) == IF j > Len(r) THEN <<>> ELSE [x \in 1..r[j][2] |-> r[j][1]] \o UnRle(r, j + 1)
+BigAgrees == \A n \in 0..5 : LET i == BigInst(n, <<0, 9>>, <<0, 4>>)  enc == EncodeInst(i) IN
+               /\ enc = UnRle(BigWordsRle(n, <<0, 9>>, <<0, 4>>), 1)
+               /\ LET sp == ParseInst(enc, 1, NoTypes) IN sp.st = "ok" /\ sp.inst = i /\ sp.wc = Len(enc)
+ASSUME BigAgrees
+BigCode(e) ==
+  IF e.wst = "panic" \/ e.pst = "panic" THEN 4 + 1
+  ELSE IF e.n + 2 > 65535 THEN 8
+  ELSE IF /\ e.wst = "ok" /\ e.words_rle = BigWordsRle(e.n, e.rid, e.member)
+          /\ e.pst = "ok" /\ Len(e.parsed) = 1
+          /\ e.parsed[1].op = 30 /\ e.parsed[1].rt = <<>> /\ e.parsed[1].rid = <<e.rid>> /\ e.parsed[1].all_idref
+          /\ e.parsed[1].ops_rle = (IF e.n = 0 THEN <<>> ELSE <<<<e.member, e.n>>>>)
+       THEN 0 ELSE 1
+
+Code(e) == IF e.ev = "parse" THEN ParseCode(e) ELSE IF e.ev = "asm" THEN AsmCode(e) ELSE IF e.ev = "asmbig" THEN BigCode(e) ELSE 0
 
 Init == l = 1 /\ bad = <<>>
 Next == /\ l <= Len(Rec)
